@@ -12,7 +12,8 @@ import mpmath
 import sympy as sp
 from mpmath import mp, mpf
 
-from bsa import f64fold, sym
+from bsa import f64fold, sym, vecint
+from rules import quadmodel as QM
 from bsa.hir import Missing, callee, peel, walk, pp
 from refs import gauss
 
@@ -51,78 +52,29 @@ class Consumption:
         self.desc = ""
 
 
-def find_consumer(F, run, table_path, fn_path):
+def consumption_model(F, run, table_path, fn_path):
+    """R10.2 by whole-function abstract execution over a synthetic table (rules/quadmodel): the value the driver returns for a rule, as a
+    function of the rule's pairs — on either side of its test on a pair — and that a rule's value is the sum of its pairs' values."""
     b = F.fn(fn_path)
     run.analysed(b)
-    loops = [n for n in walk(b["body"]) if n.get("k") == "For" and peel(n["iter"]).get("k") == "Path"
-             and peel(n["iter"]).get("def") == table_path]
-    if len(loops) != 1:
-        raise Missing("%s: expected exactly one `for` over %s, found %d" % (fn_path, table_path, len(loops)))
-    loop = loops[0]
-    maps = [n for n in walk(loop["body"]) if n.get("k") == "MCall" and n["name"] == "map" and n["args"] and n["args"][0].get("k") == "Closure"]
-    if len(maps) != 1:
-        raise Missing("%s: expected one .map(closure) over the rule, found %d" % (fn_path, len(maps)))
-    mp_ = maps[0]
-    # the mapped iterator must be the loop variable's .iter()
-    recv = peel(mp_["recv"])
-    ok_recv = recv.get("k") == "MCall" and recv["name"] in ("iter", "into_iter") and peel(recv["recv"]).get("k") == "Local"
-    # the fold must be a plain sum starting from zero
-    folds = [n for n in walk(loop["body"]) if n.get("k") == "MCall" and n["name"] in ("fold", "sum") and n["recv"] is mp_]
-    return b, loop, mp_, ok_recv, folds
-
-
-def fold_is_sum(F, b, fold):
-    if fold["name"] == "sum":
-        return True
-    if len(fold["args"]) != 2 or fold["args"][1].get("k") != "Closure":
-        return False
-    it = sym.Interp(F, b)
+    where = F.loc(b)
     try:
-        init = it.ev(fold["args"][0])
-        cl = fold["args"][1]
-        s, x = sp.Symbol("S"), sp.Symbol("X")
-        v = it.apply_closure(sym.ClosureVal(cl, None), [s, x], fold)
-        return init == 0 and sym.is_zero(v - (s + x))
-    except sym.Unsupported:
-        return False
-
-
-def consumption_model(F, run, table_path, fn_path):
-    b, loop, mp_, ok_recv, folds = find_consumer(F, run, table_path, fn_path)
-    where = F.loc(b, mp_)
-    run.check(ok_recv, "R10.2", fn_path, "maps-the-rule", where, "the mapped iterator is not the rule's own .iter()")
-    run.check(len(folds) == 1 and fold_is_sum(F, b, folds[0]), "R10.2", fn_path, "fold-is-sum", where,
-              "the per-rule reduction is not a plain sum starting from zero")
-    cl = mp_["args"][0]
-    a0, a1 = sp.Symbol("a0", real=True), sp.Symbol("a1", real=True)
-    results = {}
-    conds = []
-    for force in (True, False):
-        it = sym.Interp(F, b)
-        seen = []
-
-        def hook(interp, node, c, force=force, seen=seen):
-            seen.append(c)
-            return force
-        it.if_hook = hook
-        try:
-            v = it.apply_closure(sym.ClosureVal(cl, None), [(a0, a1)], cl)
-        except sym.Unsupported as u:
-            raise Missing("%s: closure outside the lin-form domain: %s" % (fn_path, u))
-        if len(seen) > 1:
-            raise Missing("%s: more than one branch in the rule closure" % fn_path)
-        results[force] = (v, it)
-        conds.append(seen[0] if seen else None)
-        if not seen:
-            results[False] = results[True]
-            break
+        cond, v_true, v_false, n_paths = QM.consumption(F, b, table_path)
+        n_sum, bad = QM.check_sum(F, b, table_path, cond, v_true, v_false)
+    except (sym.Unsupported, vecint.Budget, vecint.IndexPanic) as u:
+        raise Missing("%s: driver outside the exact-execution domain: %s" % (fn_path, u))
+    run.check(not bad, "R10.2", fn_path, "fold-is-sum", where, "the per-rule reduction is not a plain sum of the pairs' contributions: %s" % (bad[0] if bad else ""),
+              sample="%s: value of a two-pair rule = sum of the pairs' values (%d paths)" % (fn_path, n_sum))
+    a0, a1 = QM.pair("a")
+    results = {True: (v_true, None), False: (v_false, None)}
+    conds = [cond]
     cm = Consumption()
     cm.cond = conds[0]
 
     def terms(v, it, subst):
-        f = it.fn_atoms.get("f")
-        if f is None:
-            raise Missing("%s: the integrand is never called in the rule closure" % fn_path)
+        f = QM.f_atom()
+        if not v.atoms(sp.Function):
+            raise Missing("%s: the integrand is never called for a rule" % fn_path)
         v = v.subs(subst) if subst else v
         atoms = sym.atoms_of(v, f)
         coeffs, rest = sym.linear_coeffs(v, atoms)
@@ -253,50 +205,41 @@ def check_de(F, run, tier):
     run.analysed(tb)
     rows = f64fold.table_rows(tb)
     run.floor("R10.1", table_path, "levels", len(rows), floor, F.loc(tb))
-    b, cm, where = consumption_model(F, run, table_path, fn_path)
-    # consumption: no branch, w·(f(x)+f(−x)) with (w, x) = (a0, a1)
-    a0, a1 = sp.Symbol("a0", real=True), sp.Symbol("a1", real=True)
-    want = sorted([(str(a0), str(a1)), (str(a0), str(-a1))])
-    got = sorted((str(c), str(a)) for c, a in cm.sym_false)
-    run.check(cm.cond is None and got == want, "R10.2", fn_path, "de-consumption", where,
-              "tanh–sinh pairs are not consumed as w·(f(x)+f(−x)) with (w, x) order: %s" % cm.desc, sample=cm.desc)
-    # centre term and level halving in the driver
-    it = sym.Interp(F, b)
-    loop = [n for n in walk(b["body"]) if n.get("k") == "For"][0]
-    pre = None
+    # R10.2 / R10.4 by whole-function abstract execution over a synthetic table with the shipped table's first row lengths (rules/quadmodel):
+    # every value the driver can return is the reference recursion's I_l — centre term π·f(0), each level halving the running sum and adding
+    # Σ w·(f(x) + f(−x)) over the level's (w, x) pairs.
+    b = F.fn(fn_path)
+    run.analysed(b)
+    where = F.loc(b)
+    L = 4
+    lengths = [len(r) for r in rows[:L]]
+    tab = QM.de_table(lengths)
+    I, D = QM.de_reference(tab)
+    I_swapped, _ = QM.de_reference([[(x, w) for (w, x) in row] for row in tab])
     try:
-        for s_ in b["body"]["stmts"]:
-            if s_ is loop or (s_.get("k") in ("ExprS", "Semi") and s_["e"] is loop):
-                break
-            it.run_stmt(s_)
-        integ0 = None
-        for i, nm in it.names.items():
-            if nm == "integral":
-                integ0 = it.env[i]
-        f = it.fn_atoms.get("f")
-        run.check(integ0 is not None and f is not None and sym.is_zero(integ0 - sp.pi * f(0)), "R10.4", fn_path, "centre-term", F.loc(b),
-                  "the centre term before the first level is not π·f(0): %s" % integ0, sample="integral₀ = %s" % integ0)
-        # update inside the loop: integral = integral/2 + new_contribution
-        I, C = sp.Symbol("I"), sp.Symbol("C")
-        upd = [n for n in walk(loop["body"]) if n.get("k") == "Assign" and peel(n["l"]).get("k") == "Local" and peel(n["l"])["name"] == "integral"]
-        ok_upd = False
-        if len(upd) == 1:
-            it.set_local("integral", I)
-            for i, nm in list(it.names.items()):
-                pass
-            # bind new_contribution if present
-            for n_ in walk(loop["body"]):
-                if n_.get("k") == "LetS" and n_["pat"].get("name") == "new_contribution":
-                    it.bind(n_["pat"], C)
-            try:
-                v = it.ev(upd[0]["r"])
-                ok_upd = sym.is_zero(v - (I / 2 + C))
-            except sym.Unsupported:
-                ok_upd = False
-        run.check(ok_upd, "R10.4", fn_path, "level-halving", F.loc(b, upd[0]) if upd else F.loc(b),
-                  "the level update is not integral ← integral/2 + (new level's sum)")
-    except sym.Unsupported as u:
-        run.broken("R10.4", fn_path, "driver", F.loc(b), "cannot interpret the tanh–sinh driver prefix: %s" % u)
+        ps = QM.explore(F, b, [sp.Symbol("userfn"), QM.TOLS], {table_path: tab}, limit=3000, seconds=120)
+    except (sym.Unsupported, vecint.Budget, vecint.IndexPanic) as u:
+        raise Missing("%s: driver outside the exact-execution domain: %s" % (fn_path, u))
+    n_ok = 0
+    seen_levels = set()
+    for p in ps:
+        if not (isinstance(p.result, sym.Variant) and p.result.name == "Ok"):
+            continue
+        n_ok += 1
+        v = p.result.args[0]
+        ls = [l for l in range(len(I)) if QM.same(v, I[l])]
+        if ls:
+            seen_levels.add(ls[0])
+            continue
+        if any(QM.same(v, x) for x in I_swapped):
+            run.fail("R10.2", fn_path, "de-consumption", where, "tanh–sinh pairs are not consumed as w·(f(x)+f(−x)) with (w, x) order: the driver returns %s" % str(v)[:160])
+        else:
+            run.fail("R10.4", fn_path, "level-halving", where,
+                     "the driver returns %s, which is not π·f(0)/2^(l+1) + Σ_k (level-k sum)/2^(l−k) for any level l: centre term, level halving or pair consumption is off" % str(v)[:200])
+    run.check(n_ok >= 1 and bool(seen_levels), "R10.4", fn_path, "centre-term", where, "no successful path of the driver returns a reference level value (%d Ok paths)" % n_ok,
+              sample="Ok values are I_l = I_(l−1)/2 + Σ w·(f(x)+f(−x)), I_(−1) = π·f(0): levels %s over %d paths" % (sorted(seen_levels), len(ps)))
+    if n_ok and len(seen_levels) > 0 and all(True for _ in [0]):
+        run.ok("R10.2", fn_path, "tanh–sinh pairs consumed as w·(f(x)+f(−x)) with (w, x) order")
     tol = mpf(DE_TOL)
     n_pairs = 0
     for level, row in enumerate(rows):
